@@ -298,11 +298,16 @@ pub enum SortedSetCommand {
         min_score: f64,
         max_score: f64,
         with_scores: bool,
+        /// "(" bounds: the boundary score itself is excluded
+        min_exclusive: bool,
+        max_exclusive: bool,
     },
     ZCount {
         key: Vec<u8>,
         min_score: f64,
         max_score: f64,
+        min_exclusive: bool,
+        max_exclusive: bool,
     },
     ZIncrBy {
         key: Vec<u8>,
@@ -314,6 +319,8 @@ pub enum SortedSetCommand {
         max_score: f64,
         min_score: f64,
         with_scores: bool,
+        min_exclusive: bool,
+        max_exclusive: bool,
     },
     ZPopMin {
         key: Vec<u8>,
@@ -1066,11 +1073,14 @@ impl UnifiedCommandExecutor {
                 Ok(RespFrame::Array(Some(frames)))
             }
             
-            SortedSetCommand::ZRangeByScore { key, min_score, max_score, with_scores } => {
+            SortedSetCommand::ZRangeByScore { key, min_score, max_score, with_scores, min_exclusive, max_exclusive } => {
                 let members = self.storage.zrangebyscore(db, &key, min_score, max_score, false)?;
                 let mut frames = Vec::new();
                 
                 for (member, score) in members {
+                    if (min_exclusive && score == min_score) || (max_exclusive && score == max_score) {
+                        continue;
+                    }
                     frames.push(RespFrame::from_bytes(member));
                     if with_scores {
                         frames.push(RespFrame::from_string(score.to_string()));
@@ -1080,8 +1090,15 @@ impl UnifiedCommandExecutor {
                 Ok(RespFrame::Array(Some(frames)))
             }
             
-            SortedSetCommand::ZCount { key, min_score, max_score } => {
-                let count = self.storage.zcount(db, &key, min_score, max_score)?;
+            SortedSetCommand::ZCount { key, min_score, max_score, min_exclusive, max_exclusive } => {
+                let count = if min_exclusive || max_exclusive {
+                    self.storage.zrangebyscore(db, &key, min_score, max_score, false)?
+                        .into_iter()
+                        .filter(|(_, score)| !(min_exclusive && *score == min_score) && !(max_exclusive && *score == max_score))
+                        .count()
+                } else {
+                    self.storage.zcount(db, &key, min_score, max_score)?
+                };
                 Ok(RespFrame::Integer(count as i64))
             }
             
@@ -1090,11 +1107,14 @@ impl UnifiedCommandExecutor {
                 Ok(RespFrame::from_string(new_score.to_string()))
             }
             
-            SortedSetCommand::ZRevRangeByScore { key, max_score, min_score, with_scores } => {
+            SortedSetCommand::ZRevRangeByScore { key, max_score, min_score, with_scores, min_exclusive, max_exclusive } => {
                 let members = self.storage.zrangebyscore(db, &key, min_score, max_score, true)?;
                 let mut frames = Vec::new();
                 
                 for (member, score) in members {
+                    if (min_exclusive && score == min_score) || (max_exclusive && score == max_score) {
+                        continue;
+                    }
                     frames.push(RespFrame::from_bytes(member));
                     if with_scores {
                         frames.push(RespFrame::from_string(score.to_string()));
@@ -2668,14 +2688,24 @@ impl CommandParser {
         })
     }
 
+    /// Score bound: a float (NaN excluded), optionally prefixed with "(" for an exclusive bound
+    fn parse_score_bound(text: &str) -> Result<(f64, bool)> {
+        let (number, exclusive) = match text.strip_prefix('(') {
+            Some(rest) => (rest, true),
+            None => (text, false),
+        };
+        match number.parse::<f64>() {
+            Ok(n) if !n.is_nan() => Ok((n, exclusive)),
+            _ => Err(FerrousError::Command(CommandError::InvalidFloatValue)),
+        }
+    }
+
     fn parse_zrangebyscore(frames: &[RespFrame]) -> Result<SortedSetCommand> {
         if frames.len() < 4 || frames.len() > 5 {
             return Err(FerrousError::Command(CommandError::WrongNumberOfArguments("ZRANGEBYSCORE".into())));
         }
-        let min_score = Self::extract_string(&frames[2])?.parse::<f64>()
-            .map_err(|_| FerrousError::Command(CommandError::InvalidFloatValue))?;
-        let max_score = Self::extract_string(&frames[3])?.parse::<f64>()
-            .map_err(|_| FerrousError::Command(CommandError::InvalidFloatValue))?;
+        let (min_score, min_exclusive) = Self::parse_score_bound(&Self::extract_string(&frames[2])?)?;
+        let (max_score, max_exclusive) = Self::parse_score_bound(&Self::extract_string(&frames[3])?)?;
         let with_scores = frames.len() == 5 && 
             Self::extract_string(&frames[4])?.to_uppercase() == "WITHSCORES";
         Ok(SortedSetCommand::ZRangeByScore {
@@ -2683,6 +2713,8 @@ impl CommandParser {
             min_score,
             max_score,
             with_scores,
+            min_exclusive,
+            max_exclusive,
         })
     }
 
@@ -2690,14 +2722,14 @@ impl CommandParser {
         if frames.len() != 4 {
             return Err(FerrousError::Command(CommandError::WrongNumberOfArguments("ZCOUNT".into())));
         }
-        let min_score = Self::extract_string(&frames[2])?.parse::<f64>()
-            .map_err(|_| FerrousError::Command(CommandError::InvalidFloatValue))?;
-        let max_score = Self::extract_string(&frames[3])?.parse::<f64>()
-            .map_err(|_| FerrousError::Command(CommandError::InvalidFloatValue))?;
+        let (min_score, min_exclusive) = Self::parse_score_bound(&Self::extract_string(&frames[2])?)?;
+        let (max_score, max_exclusive) = Self::parse_score_bound(&Self::extract_string(&frames[3])?)?;
         Ok(SortedSetCommand::ZCount {
             key: Self::extract_bytes(&frames[1])?,
             min_score,
             max_score,
+            min_exclusive,
+            max_exclusive,
         })
     }
 
@@ -2808,10 +2840,8 @@ impl CommandParser {
         if frames.len() < 4 || frames.len() > 5 {
             return Err(FerrousError::Command(CommandError::WrongNumberOfArguments("ZREVRANGEBYSCORE".into())));
         }
-        let max_score = Self::extract_string(&frames[2])?.parse::<f64>()
-            .map_err(|_| FerrousError::Command(CommandError::InvalidFloatValue))?;
-        let min_score = Self::extract_string(&frames[3])?.parse::<f64>()
-            .map_err(|_| FerrousError::Command(CommandError::InvalidFloatValue))?;
+        let (max_score, max_exclusive) = Self::parse_score_bound(&Self::extract_string(&frames[2])?)?;
+        let (min_score, min_exclusive) = Self::parse_score_bound(&Self::extract_string(&frames[3])?)?;
         let with_scores = frames.len() == 5 && 
             Self::extract_string(&frames[4])?.to_uppercase() == "WITHSCORES";
         Ok(SortedSetCommand::ZRevRangeByScore {
@@ -2819,6 +2849,8 @@ impl CommandParser {
             max_score,
             min_score,
             with_scores,
+            min_exclusive,
+            max_exclusive,
         })
     }
     
